@@ -180,7 +180,21 @@ func checkC10(sc *Scenario, res *RunResult, t *Truth) []Violation {
 					if t.EndT-t.Events[fatalAt].T > 3*time.Second {
 						vs = append(vs, Violation{"C10", "not-stopped-after-failure-threshold", fmt.Sprintf("threshold=%d", threshold), fmt.Sprintf("%s: %d consecutive probe failures (the last at seq %d) but the process was never signalled", rep, threshold, fatalAt), fatalAt})
 					}
-				} else if L.ExitSeq >= 0 && !userStop(L.ExitSeq+1) {
+				} else if p.StopTimeout != nil && firstKill.Sig != 9 && !userStop(t.firstSeqAtOrAfter(int64(firstKill.T+time.Duration(*p.StopTimeout+2)*time.Second))) {
+					// the stop the probe triggered is a stop like any other: a command that
+					// does not die of the signal is killed when the time-out has passed
+					due := firstKill.T + time.Duration(*p.StopTimeout)*time.Second
+					killed := false
+					for _, k := range L.Kills {
+						if k.Sig == 9 {
+							killed = true
+						}
+					}
+					if !killed && (L.ExitSeq < 0 || L.ExitT > due+time.Second) && t.EndT > due+2*time.Second {
+						vs = append(vs, Violation{"C10", "no-sigkill-after-probe-stop", "", fmt.Sprintf("%s was sent signal %d at t=%v after %d consecutive readiness failures, did not die, and was not killed when its shutdown time-out (%ds) had passed", rep, firstKill.Sig, firstKill.T, threshold, *p.StopTimeout), firstKill.Seq})
+					}
+				}
+				if firstKill != nil && L.ExitSeq >= 0 && !userStop(L.ExitSeq+1) {
 					// stopped because of the probe: relaunched iff the policy says so
 					owed := restartOwed(p, L.Code, li)
 					var next *Inst
